@@ -2,6 +2,8 @@ package main
 
 import (
 	"fmt"
+	"go/types"
+	"mime"
 	"net/textproto"
 	"strings"
 	"unicode/utf8"
@@ -295,6 +297,55 @@ func addStringIntrinsics(m map[string]intrinsicFn) {
 			ts[i] = b.(*Term)
 		}
 		return p.utf8Valid(ts)
+	}
+	// mime.ParseMediaType: concrete input runs the real parser natively; a symbolic
+	// input is handled for parameter-less values only: valid "token[/token]" is
+	// returned lower-cased, anything else is the parser's error (empty media type).
+	m["mime.ParseMediaType"] = func(fr *frame, a []value) value {
+		p := fr.p
+		tc := p.tc
+		s := a[0].(Str)
+		mt := fr.fn.Signature.Results().At(1).Type()
+		if c, ok := s.Concrete(); ok {
+			mediatype, params, err := mime.ParseMediaType(c)
+			var pm *smap
+			if params != nil {
+				u := mt.Underlying().(*types.Map)
+				pm = &smap{kt: u.Key(), vt: u.Elem()}
+				for k, v := range params {
+					pm.insert(p, Str{s: k}, Str{s: v})
+				}
+			}
+			var ev value = iface{}
+			if err != nil {
+				ev = p.newErrorString(err.Error())
+			}
+			return tuple{Str{s: mediatype}, pm, ev}
+		}
+		bs := s.b
+		valid := tc.True()
+		slashes := tc.BV(8, 0)
+		for _, b := range bs {
+			isSlash := tc.Eq(b, tc.BV(8, '/'))
+			tok := tc.And(tc.Cmp(OpULt, tc.BV(8, 0x20), b), tc.Cmp(OpULt, b, tc.BV(8, 0x7f)))
+			for _, sp := range []byte("()<>@,;:\\\"/[]?=") {
+				tok = tc.And(tok, tc.Ne(b, tc.BV(8, uint64(sp))))
+			}
+			valid = tc.And(valid, tc.Or(tok, isSlash))
+			slashes = tc.Bin(OpAdd, slashes, tc.Ite(isSlash, tc.BV(8, 1), tc.BV(8, 0)))
+		}
+		valid = tc.And(valid, tc.Cmp(OpULe, slashes, tc.BV(8, 1)))
+		if len(bs) > 0 {
+			valid = tc.And(valid, tc.And(tc.Ne(bs[0], tc.BV(8, '/')), tc.Ne(bs[len(bs)-1], tc.BV(8, '/'))))
+		}
+		if !p.branch(valid) {
+			return tuple{Str{}, (*smap)(nil), p.newErrorString("mime: invalid media type")}
+		}
+		out := make([]*Term, len(bs))
+		for i, b := range bs {
+			out[i] = tc.Ite(p.inRange(b, 'A', 'Z'), tc.Bin(OpAdd, b, tc.BV(8, 32)), b)
+		}
+		return tuple{p.mkStr(out), (*smap)(nil), iface{}}
 	}
 	m["net/textproto.CanonicalMIMEHeaderKey"] = func(fr *frame, a []value) value {
 		p := fr.p
